@@ -361,6 +361,7 @@ pub struct Ctx {
     pub violations: Vec<Violation>,
     pub known_hits: Vec<String>,
     pub known_subs: Vec<String>,
+    pub harness_errors: Vec<String>,
     pub known: Vec<KnownFinding>,
     pub assumptions: Vec<String>,
     pub notes: Vec<String>,
@@ -393,6 +394,7 @@ impl Ctx {
             violations: vec![],
             known_hits: vec![],
             known_subs: vec![],
+            harness_errors: vec![],
             known: load_known_findings(),
             assumptions: vec![],
             notes: vec![],
@@ -446,6 +448,13 @@ impl Ctx {
     }
 
     fn report_failure(&mut self, sub: &str, f: Failure) {
+        if f.message.starts_with("harness:") {
+            // an internal assertion of the harness (generator / oracle assumption), never a property violation
+            eprintln!("[{}] {} HARNESS ERROR: {}\n    case: {}", self.prop, sub, f.message, f.case);
+            self.harness_errors.push(format!("{}: {} on case {}", sub, f.message, f.case));
+            self.known_subs.push(sub.to_string());
+            return;
+        }
         if let Some(k) = self.is_known(sub, &f.case, &f.message) {
             let line = format!("KNOWN-FINDING: property={} {}", self.prop, k.what);
             if !self.known_hits.contains(&line) {
@@ -821,6 +830,7 @@ impl Ctx {
                 "known_findings_hit": self.known_hits,
                 "violation_details": viol,
                 "notes": self.notes,
+                "harness_errors": self.harness_errors,
                 "regression_cases_replayed": self.regressions_run,
             },
             "assumptions": self.assumptions,
@@ -855,11 +865,14 @@ impl Ctx {
         for v in &self.violations {
             println!("VIOLATION property={} replay={}", self.prop, v.replay.display());
         }
-        if self.violations.is_empty() {
+        if !self.violations.is_empty() {
+            1
+        } else if !self.harness_errors.is_empty() {
+            println!("INCONCLUSIVE property={} the harness tripped over its own assertion ({} time(s)); this is not a verdict about the code", self.prop, self.harness_errors.len());
+            2
+        } else {
             println!("[{}] OK tier={} seed={} wall={:.1}s", self.prop, self.tier.name(), self.seed, self.start.elapsed().as_secs_f64());
             0
-        } else {
-            1
         }
     }
 }
